@@ -106,3 +106,22 @@ loop:
 	}
 	return sum
 }
+
+func double(i int) int { return 2 * i }
+
+// SpawnSum starts n workers whose arguments are computed at the go statement.
+func SpawnSum(n int, out chan int) {
+	for i := 0; i < n; i++ {
+		go func(v, w int) { out <- v * w }(i+1, double(i))
+	}
+}
+
+// eventCh is a named channel type.
+type eventCh chan int
+
+// Named sends through a channel made from a named type.
+func Named(v int) int {
+	ch := make(eventCh, 1)
+	go func() { ch <- v + 1 }()
+	return <-ch
+}
